@@ -17,7 +17,7 @@ CHECKS = {
    "Debug(Statement) is structural; the generator's token boundaries are those of the documented syntax; two-character operators are <= >= != => :: and --.",
    "DESIGN.md §3 C20"),
  "C14": (True,
-   "property-based testing / fuzz-style totality check: six input generators (Unicode noise, token soups, mutated and truncated valid statements, all prefixes, deep nesting, invalid-by-construction definitions), proptest, supervised child process",
+   "property-based testing / fuzz-style totality check: eight input generators (Unicode noise, token soups, mutated and truncated valid statements - also with identifiers whose case mapping changes length -, all prefixes, deep nesting, invalid-by-construction definitions, long operator chains parsed in a child process, definitions whose patterns are heavy only together), proptest, supervised child process",
    "Generated-input search for panics, aborts, hangs, error locations outside the text and unproducible 'near' excerpts; invalid-by-construction definitions must be rejected. Every character prefix of the generated valid statements is tried. The search runs in a supervised child so that stack overflows and hangs are observed and re-judged in isolation. Exploration, not proof.",
    "Documented nesting bound of the check: depth 200 on an 8 MiB stack. A time-out is reported as inconclusive (exit 2) unless it reproduces twice in isolation. One recorded known finding (F55: operator chains of thousands of terms overflow the stack) is excluded by construction (chains capped at 150 terms) and replayed as a witness in a child process.",
    "DESIGN.md §3 C14"),
